@@ -227,7 +227,10 @@ class Bundle:
         if name is not None and val.name is not None:  # Both set, fail.
             msg = f"{val} with conflicting names {name} and {val.name} cannot be added to Bundle {self.name}"
             raise RuntimeError(msg)
-        if name is not None:  # One or the other set - great.
+        # One or the other set - great.
+        # `val` takes the name once the addition is known to be valid: a rejected addition leaves `val` as it was.
+        _assert_addable(self, val, name if name is not None else val.name)
+        if name is not None:
             val.name = name
 
         # Now `val.name` is set appropriately.
@@ -281,6 +284,8 @@ class Bundle:
         assert_bundle_attr(self, val)
 
         # Checks out! Name `val` and add it to our type-based containers.
+        # `val` takes the name once the addition is known to be valid: a rejected addition leaves `val` as it was.
+        _assert_addable(self, val, key)
         val.name = key
         _add(bundle=self, val=val)
         return None
@@ -311,19 +316,26 @@ class Bundle:
         return f"Bundle(_anon_)"
 
 
+def _assert_addable(bundle: Bundle, val: BundleAttr, name: str) -> None:
+    """Raise a `RuntimeError` if `val` cannot be added to `bundle` under the name `name`.
+    Checked by `Bundle.add` and `Bundle.__setattr__` *before* they give `val` its name, and again by `_add`."""
+
+    if bundle._elaborated:  ## FIXME: is not None:
+        raise RuntimeError(f"Cannot add {val} to {bundle} after elaboration.")
+
+    # Reserved names denote the Bundle's own Python attributes and methods, however the attribute arrives here
+    if name in _reserved:
+        msg = f"Invalid name {name} for attribute {val} of {bundle}: reserved by `Bundle`"
+        raise RuntimeError(msg)
+
+
 def _add(bundle: Bundle, val: BundleAttr) -> BundleAttr:
     """Internal `Module.add` and `Module.__setattr__` implementation.
     Primarily sort `val` into one of our type-based containers.
     Layers above `_add` must ensure that `val` has its `name` attribute before calling this method.
     """
 
-    if bundle._elaborated:  ## FIXME: is not None:
-        raise RuntimeError(f"Cannot add {val} to {bundle} after elaboration.")
-
-    # Reserved names denote the Bundle's own Python attributes and methods, however the attribute arrives here
-    if val.name in _reserved:
-        msg = f"Invalid name {val.name} for attribute {val} of {bundle}: reserved by `Bundle`"
-        raise RuntimeError(msg)
+    _assert_addable(bundle, val, val.name)
 
     # Sort out which of our type-based containers to add `val` to.
     if isinstance(val, Signal):
